@@ -11,8 +11,8 @@ import SMV.Props.SideConditions
   so the definitions on which the macro emits code that rustc must refuse are characterised by name coincidences
   alone: no hook list, payload, context mode, `async` or transition shape enters `NamesOK` except through the names
   of states, events and of the machine. The corollaries name each family of coincidences (the known findings
-  F5-… of DESIGN §8; each is re-observed with rustc by T4 `known`), and `accepted_flat` shows that without
-  coincidences — in the simplest family of definitions, for any number of states and events — nothing is refused.
+  F5-… of DESIGN §8; one instance of each is re-observed with rustc by T4 `known`). `Props/Witness.lean` shows the
+  conditions satisfiable on a machine that uses every feature of the DSL.
 -/
 namespace SMV.C14Names
 open SMV
@@ -76,13 +76,13 @@ theorem expand_codeOf (m : Machine) (feature : Bool) (code : Code) (h : m.expand
 
 /-! ### closed forms -/
 
-private theorem flatMap_nil' {α β : Type} (l : List α) (f : α → List β) (h : ∀ x ∈ l, f x = []) : l.flatMap f = [] := by
+theorem flatMap_nilOf {α β : Type} (l : List α) (f : α → List β) (h : ∀ x ∈ l, f x = []) : l.flatMap f = [] := by
   induction l with
   | nil => rfl
   | cons x xs ih => simp [h x (by simp), ih (fun y hy => h y (by simp [hy]))]
 
-@[simp] private theorem flatMap_const_nil {α β : Type} (l : List α) : l.flatMap (fun _ => ([] : List β)) = [] :=
-  flatMap_nil' l _ (fun _ _ => rfl)
+@[simp] theorem flatMap_const_nil {α β : Type} (l : List α) : l.flatMap (fun _ => ([] : List β)) = [] :=
+  flatMap_nilOf l _ (fun _ _ => rfl)
 
 /-- the accessor items that follow the per-state impls -/
 def accPart (m : Machine) : List Item :=
@@ -96,10 +96,10 @@ theorem flatMap_ts {β : Type} (m : Machine) (f : Item → List β) :
       m.states.flatMap (fun s => f (genStateImpl m s)) ++ (accPart m).flatMap f ++ (genSubstateImpls m).flatMap f := by
   simp [genTypestate, genMarkers, genStateImpls, accPart, List.flatMap_append, List.flatMap_map]
 
-private theorem acc_flat {β : Type} (m : Machine) (f : Item → List β)
+theorem acc_flat {β : Type} (m : Machine) (f : Item → List β)
     (h1 : ∀ a b c, f (.storageImpl a b c) = []) (h2 : ∀ a b c d e g h, f (.stateAccImpl a b c d e g h) = []) :
     (accPart m).flatMap f = [] := by
-  apply flatMap_nil'
+  apply flatMap_nilOf
   intro x hx
   unfold accPart at hx
   split at hx
@@ -108,9 +108,9 @@ private theorem acc_flat {β : Type} (m : Machine) (f : Item → List β)
     · exact h1 _ _ _
     · obtain ⟨a, _, rfl⟩ := List.mem_map.mp hx; exact h2 _ _ _ _ _ _ _
 
-private theorem sub_flat {β : Type} (m : Machine) (f : Item → List β) (h : ∀ a l, f (.substateImpl a l) = []) :
+theorem sub_flat {β : Type} (m : Machine) (f : Item → List β) (h : ∀ a l, f (.substateImpl a l) = []) :
     (genSubstateImpls m).flatMap f = [] := by
-  apply flatMap_nil'
+  apply flatMap_nilOf
   intro x hx
   unfold genSubstateImpls at hx
   obtain ⟨leaf, _, hx⟩ := List.mem_flatMap.mp hx
@@ -217,8 +217,7 @@ theorem methodNames_ts (m : Machine) (s : Name) :
 theorem methodNames_dyn (m : Machine) (s : Name) :
     Static.methodNames (genDynamic m) s = m.states.flatMap fun st => if st = s then [Name.lit "into_dynamic"] else [] := by
   rw [genDynamic_eq]
-  simp [Static.methodNames, Static.itemMethods, genEventEnum, genAnyStateEnum, List.flatMap_append, List.flatMap_map,
-    Function.comp_def]
+  simp [Static.methodNames, Static.itemMethods, genEventEnum, genAnyStateEnum, List.flatMap_append, List.flatMap_map]
 
 theorem methodNames_code (m : Machine) (dyn : Bool) (s : Name) :
     Static.methodNames (codeOf m dyn) s = methodsOf m dyn s := by
@@ -265,5 +264,144 @@ theorem accepted_iff (m : Machine) (dyn : Bool) : Static.accepted (codeOf m dyn)
       unfold Static.dynMethods; rw [app]
       rw [← Static.dynMethods, ← Static.dynMethods, dynMethods_ts, dynMethods_dyn]; simp
     simp only [codeOf, ↓reduceIte, e1, e2, e3, e4, e5, e6, e7, true_implies, and_assoc]
+
+theorem rejected_of_not_namesOK (m : Machine) (dyn : Bool) (h : ¬ NamesOK m dyn) :
+    Static.accepted (codeOf m dyn) = false := by
+  cases hacc : Static.accepted (codeOf m dyn)
+  · rfl
+  · exact absurd ((accepted_iff m dyn).mp hacc) h
+
+/-! ### the families of coincidences (each a well-formed definition that rustc refuses: known findings F5) -/
+
+theorem not_nodup_of_mem_both {α : Type} {a : α} {l₁ l₂ : List α} (h₁ : a ∈ l₁) (h₂ : a ∈ l₂) :
+    ¬ (l₁ ++ l₂).Nodup := by
+  intro h
+  exact (List.nodup_append.mp h).2.2 a h₁ a h₂ rfl
+
+theorem sublist_flatMap_of_mem {α β : Type} (f : α → List β) {a : α} : ∀ {l : List α}, a ∈ l →
+    (f a).Sublist (l.flatMap f) := by
+  intro l
+  induction l with
+  | nil => intro h; cases h
+  | cons x xs ih =>
+    intro h
+    rw [List.flatMap_cons]
+    rcases List.mem_cons.mp h with rfl | h
+    · exact List.sublist_append_left _ _
+    · exact (ih h).trans (List.sublist_append_right _ _)
+
+theorem not_nodup_map {α β : Type} (f : α → β) {a b : α} {l : List α} (ha : a ∈ l) (hb : b ∈ l) (hne : a ≠ b)
+    (hf : f a = f b) : ¬ (l.map f).Nodup := by
+  intro h
+  exact hne (SideConditions.inj_of_nodup_map f l h a ha b hb hf)
+
+/-- a state called like the machine (`M`), or — with the dynamic API — like one of the generated types
+    (`MEvent`, `AnyMState`, `DynamicM`): two items of one name, E0428 -/
+theorem state_named_like_generated_type (m : Machine) (dyn : Bool) (s : Name) (hs : s ∈ m.states)
+    (h : s = m.name ∨ (dyn = true ∧ (s = eventEnumName m ∨ s = anyStateName m ∨ s = dynamicName m))) :
+    Static.accepted (codeOf m dyn) = false := by
+  apply rejected_of_not_namesOK
+  intro hok
+  have hnd := hok.1
+  unfold typeNamesOf at hnd
+  rcases h with rfl | ⟨rfl, h⟩
+  · rw [List.append_assoc] at hnd
+    exact not_nodup_of_mem_both (List.mem_append_left _ hs) (List.mem_append_left _ (List.mem_singleton.mpr rfl)) hnd
+  · refine not_nodup_of_mem_both (List.mem_append_left _ (List.mem_append_left _ hs)) ?_ hnd
+    rcases h with rfl | rfl | rfl <;> simp
+
+/-- an event whose method name is `new`, leaving the initial state: it meets the constructor, E0592 -/
+theorem event_named_new (m : Machine) (dyn : Bool) (hi : m.initial ∈ m.states) (e : Edge) (he : e ∈ m.outgoing m.initial)
+    (hn : toSnake e.event = Name.lit "new") : Static.accepted (codeOf m dyn) = false := by
+  apply rejected_of_not_namesOK
+  intro hok
+  have hnd := hok.2.2.1 m.initial (List.mem_append_left _ hi)
+  unfold methodsOf at hnd
+  have hsub : ([Name.lit "new"] ++ (m.outgoing m.initial).map (fun e => toSnake e.event)).Sublist
+      (m.states.flatMap fun st =>
+        if st = m.initial then (if st = m.initial then [Name.lit "new"] else []) ++ (m.outgoing st).map (fun e => toSnake e.event)
+        else []) := by
+    have := sublist_flatMap_of_mem (fun st =>
+        if st = m.initial then (if st = m.initial then [Name.lit "new"] else []) ++ (m.outgoing st).map (fun e => toSnake e.event)
+        else []) hi
+    simpa using this
+  have hnd' := hsub.nodup (List.nodup_append.mp (List.nodup_append.mp hnd).1).1
+  refine not_nodup_of_mem_both (List.mem_singleton.mpr rfl) ?_ hnd'
+  exact List.mem_map.mpr ⟨e, he, hn⟩
+
+/-- with the dynamic API: two states whose names have the same snake_case form (`HTTPServer` / `HttpServer`) get two
+    extractors `into_http_server`, E0592 — whether or not they carry data -/
+theorem snake_collision_dynamic (m : Machine) (s s' : Name) (hs : s ∈ m.states) (hs' : s' ∈ m.states) (hne : s ≠ s')
+    (h : toSnake s = toSnake s') : Static.accepted (codeOf m true) = false := by
+  apply rejected_of_not_namesOK
+  intro hok
+  have hnd := hok.2.2.2.2.2.2 rfl
+  unfold dynMethodsOf at hnd
+  have := (List.nodup_append.mp hnd).2.1
+  exact not_nodup_map (fun s => Name.lit "into_" ++ toSnake s) hs hs' hne (by simp [h]) this
+
+/-- with the dynamic API: the extractor of one state meets the data reader of another (`Data` beside a data-carrying
+    `Into`: `into_data` twice), E0592 -/
+theorem extractor_meets_reader (m : Machine) (s : Name) (hs : s ∈ m.states) (a : DynAcc)
+    (ha : a ∈ m.storage.filterMap (genDynAcc m))
+    (h : Name.lit "into_" ++ toSnake s = a.readName ∨ Name.lit "into_" ++ toSnake s = a.writeName ∨
+         Name.lit "into_" ++ toSnake s = a.setName) : Static.accepted (codeOf m true) = false := by
+  apply rejected_of_not_namesOK
+  intro hok
+  have hnd := hok.2.2.2.2.2.2 rfl
+  unfold dynMethodsOf at hnd
+  refine not_nodup_of_mem_both (a := Name.lit "into_" ++ toSnake s) ?_ (List.mem_map.mpr ⟨s, hs, rfl⟩) hnd
+  apply List.mem_append_right
+  apply List.mem_flatMap.mpr
+  refine ⟨a, ha, ?_⟩
+  rcases h with h | h | h <;> simp [h]
+
+/-- an event whose method name is `into_dynamic` (with the dynamic API), or the name of one of the `state_data_*`
+    accessors that every state type carries: E0592 -/
+theorem event_named_like_accessor (m : Machine) (dyn : Bool) (s : Name) (hs : s ∈ m.states) (e : Edge) (he : e ∈ m.outgoing s)
+    (h : (dyn = true ∧ toSnake e.event = Name.lit "into_dynamic") ∨
+         (∃ sp ∈ m.storage, toSnake e.event = trimUnderscores sp.field ∨
+            toSnake e.event = trimUnderscores sp.field ++ Name.lit "_mut")) :
+    Static.accepted (codeOf m dyn) = false := by
+  apply rejected_of_not_namesOK
+  intro hok
+  have hnd := hok.2.2.1 s (List.mem_append_left _ hs)
+  unfold methodsOf at hnd
+  have hmem : toSnake e.event ∈ (m.states.flatMap fun st =>
+      if st = s then (if st = m.initial then [Name.lit "new"] else []) ++ (m.outgoing st).map (fun e => toSnake e.event)
+      else []) := by
+    apply List.mem_flatMap.mpr
+    exact ⟨s, hs, by simp only [↓reduceIte]; exact List.mem_append_right _ (List.mem_map.mpr ⟨e, he, rfl⟩)⟩
+  rcases h with ⟨rfl, hn⟩ | ⟨sp, hsp, hn⟩
+  · refine not_nodup_of_mem_both (List.mem_append_left _ hmem) ?_ hnd
+    simp only [↓reduceIte]
+    exact List.mem_flatMap.mpr ⟨s, hs, by simp [hn]⟩
+  · rw [List.append_assoc] at hnd
+    refine not_nodup_of_mem_both hmem (List.mem_append_left _ ?_) hnd
+    have hne : m.storage.isEmpty = false := by
+      cases hst : m.storage with
+      | nil => rw [hst] at hsp; cases hsp
+      | cons _ _ => rfl
+    simp only [hne, Bool.false_eq_true, ↓reduceIte]
+    apply List.mem_append_left
+    exact List.mem_flatMap.mpr ⟨sp, hsp, by rcases hn with hn | hn <;> simp [hn]⟩
+
+/-! ### non-vacuity: both sides of the characterisation are inhabited -/
+
+/-- two states `Up`, `Down`, one event: the naming conditions hold and the rules accept, with and without the wrapper -/
+def okM : Machine :=
+  { name := Name.lit "M", initial := Name.lit "Up", context := none, states := [Name.lit "Up", Name.lit "Down"],
+    storage := [], hierarchy := {}, asyncMode := false, dynamicMode := true,
+    events := [{ name := Name.lit "go", payload := none, guards := [], unl := [], before := [], after := [], around := [],
+                 transitions := [] }],
+    graph := [(Name.lit "Up", { event := Name.lit "go", target := Name.lit "Down", payload := none, guards := [], unl := [],
+                                 before := [], after := [], around := [] })] }
+
+example : Static.accepted (codeOf okM true) = true := by decide
+example : NamesOK okM true := (accepted_iff okM true).mp (by decide)
+
+/-- the same machine with its second state called `MEvent`: refused (by `state_named_like_generated_type`) -/
+example : Static.accepted (codeOf { okM with states := [Name.lit "Up", Name.lit "MEvent"] } true) = false :=
+  state_named_like_generated_type _ true (Name.lit "MEvent") (by decide) (Or.inr ⟨rfl, Or.inl (by decide)⟩)
 
 end SMV.C14Names
